@@ -270,163 +270,4 @@ def pruneKeep (targets : List Addr) (exact : Bool) (md : Nat) (b : Addr) : Bool 
 /-- no target is a proper ancestor of another one -/
 def NonNested (ps : List Addr) : Prop := ∀ p ∈ ps, ∀ q ∈ ps, p <+: q → p = q
 
-/-! ## get_tree_diff -/
-
-def sufRemoved : Str := [' ', '(', '-', ')']
-def sufAdded : Str := [' ', '(', '+', ')']
-def sufChanged : Str := [' ', '(', '~', ')']
-
-/-- `node.get_attr(k)` -/
-def getAttr (a : Attrs) (k : Str) : Val := (a.lookup k).getD .null
-
-/-- a row of `tree_to_dataframe(tree, name_col, path_col, attr_dict={k: k for k in attr_list})` -/
-structure DRow where
-  path : Str
-  name : Str
-  vals : List Val
-  deriving Repr
-
-mutual
-def rowsOf (sep : Str) (attrList : List Str) (anc : List Str) : Tree → List DRow
-  | .node _ n av cs =>
-    ⟨pathName sep (anc ++ [n]), n, attrList.map (getAttr av)⟩ :: rowsOfL sep attrList (anc ++ [n]) cs
-def rowsOfL (sep : Str) (attrList : List Str) (anc : List Str) : List Tree → List DRow
-  | [] => []
-  | c :: cs => rowsOf sep attrList anc c ++ rowsOfL sep attrList anc cs
-end
-
-inductive Ind where
-  | left | right | both
-  deriving DecidableEq, Repr
-
-/-- a row of the outer merge on `[PATH, name]` with indicator -/
-structure MRow where
-  path : Str
-  name : Str
-  ind : Ind
-  xs : List Val
-  ys : List Val
-  deriving Repr
-
-def sameKey (r q : DRow) : Bool := r.path == q.path && r.name == q.name
-
-/-- outer merge (keys are unique on each side; the row order of the result is pandas' business:
-    here left rows first, then the right-only rows) -/
-def outerJoin (nAttr : Nat) (r1 r2 : List DRow) : List MRow :=
-  (r1.map fun r =>
-    match r2.find? (sameKey r) with
-    | some q => ⟨r.path, r.name, .both, r.vals, q.vals⟩
-    | none => ⟨r.path, r.name, .left, r.vals, List.replicate nAttr .null⟩)
-  ++ ((r2.filter fun q => !(r1.any fun r => sameKey r q)).map fun q =>
-    ⟨q.path, q.name, .right, List.replicate nAttr .null, q.vals⟩)
-
-/-- the component loop of `_add_suffix`: `idx` runs from 1; `pl` = `path_list` -/
-def addSuffixList (sep : Str) (removed added : List Str) (pl : List Str) : List Str :=
-  (List.range pl.length).map fun idx =>
-    let c := pl.getD idx []
-    if idx = 0 then c
-    else
-      let sub := join sep (pl.take (idx + 1))
-      if removed.contains sub then c ++ sufRemoved
-      else if added.contains sub then c ++ sufAdded
-      else c
-
-/-- `_add_suffix(path)` -/
-def addSuffix (sep : Str) (removed added : List Str) (path : Str) : Str :=
-  join sep (addSuffixList sep removed added (split sep path))
-
-/-- what `add_path_to_tree` does to the node it ends on -/
-inductive Upd where
-  | nothing
-  | pair (k : Str) (x y : Val)   -- `set_attrs({k: (x, y)})`, stored as two consecutive entries
-  | name (s : Str)               -- `set_attrs({"name": s})`
-  deriving Repr
-
-def setPair (a : Attrs) (k : Str) (x y : Val) : Attrs :=
-  (a.filter fun kv => kv.1 != k) ++ [(k, x), (k, y)]
-
-def applyUpd (u : Upd) : Tree → Tree
-  | .node i n av cs =>
-    match u with
-    | .nothing => .node i n av cs
-    | .pair k x y => .node i n (setPair av k x y) cs
-    | .name s => .node i s av cs
-
-/-- a freshly created chain of nodes `c / rest…`, the last one receiving the update -/
-def chain (u : Upd) (c : Str) : List Str → Tree
-  | [] => applyUpd u (.node 0 c [] [])
-  | c' :: rest => .node 0 c [] [chain u c' rest]
-
-mutual
-/-- the descent of `add_path_to_tree(…, duplicate_name_allowed=True)` below the root:
-    `find_child_by_name` (two children with the name ⇒ `SearchError`), create the missing
-    child as last child, update the final node -/
-def ins (u : Upd) : List Str → Tree → Except Err Tree
-  | [], t => .ok (applyUpd u t)
-  | c :: rest, .node i n av cs =>
-    if (cs.filter fun t => t.name == c).length > 1 then .error .searchError
-    else if cs.any fun t => t.name == c then (insL u c rest cs).map (.node i n av ·)
-    else .ok (.node i n av (cs ++ [chain u c rest]))
-def insL (u : Upd) (c : Str) (rest : List Str) : List Tree → Except Err (List Tree)
-  | [] => .ok []
-  | t :: ts =>
-    if t.name == c then (ins u rest t).map (· :: ts)
-    else (insL u c rest ts).map (t :: ·)
-end
-
-/-- `add_path_to_tree(root, path, sep, node_attrs)`: strip, split, root check, descent -/
-def addPath (sep : Str) (u : Upd) (root : Tree) (path : Str) : Except Err Tree :=
-  if path.isEmpty then .error .valueError else
-  match split sep (strip sep path) with
-  | [] => .error .valueError
-  | r :: rest => if r != root.name then .error .treeError else ins u rest root
-
-/-- `dataframe_to_tree(data_both[[PATH]], sep)` -/
-def rebuild (sep : Str) (paths : List Str) : Except Err Tree :=
-  let ps := paths.map (strip sep)
-  match ps with
-  | [] => .error .valueError
-  | p0 :: _ =>
-    let rootName := (split sep p0).headD []
-    ps.foldlM (fun t p => addPath sep .nothing t p) (.node 0 rootName [] [])
-
-/-- rows whose attribute number `j` differs: `(~x.isnull() | ~y.isnull()) & (x != y) & both` -/
-def attrDiffRows (j : Nat) (m : List MRow) : List MRow :=
-  m.filter fun r =>
-    let x := r.xs.getD j .null
-    let y := r.ys.getD j .null
-    (x != .null || y != .null) && x != y && r.ind == .both
-
-/-- `sorted(paths, reverse=True)` followed by the dict comprehension (first occurrence kept) -/
-def sortedDesc (ps : List Str) : List Str := (ps.mergeSort fun a b => decide (b ≤ a)).eraseDups
-
-/-- `get_tree_diff(tree, other_tree, only_diff, attr_list)` for two root trees, `sep = tree.sep`
-    (the function first writes `other_tree.sep = tree.sep`) -/
-def treeDiff (sep : Str) (t1 t2 : Tree) (onlyDiff : Bool) (attrList : List Str) :
-    Except Err (Option Tree) :=
-  let data := rowsOf sep attrList [] t1
-  let dataOther := rowsOf sep attrList [] t2
-  let both := outerJoin attrList.length data dataOther
-  let removed := (both.filter fun r => r.ind == .left).map (·.path)
-  let added := (both.filter fun r => r.ind == .right).map (·.path)
-  let both := both.map fun r => { r with path := addSuffix sep removed added r.path }
-  -- attribute differences, one dictionary per attribute that has any
-  let diffs : List (List (Str × Upd)) :=
-    (attrList.zipIdx.map fun (k, j) =>
-      (attrDiffRows j both).map fun r => (r.path, Upd.pair k (r.xs.getD j .null) (r.ys.getD j .null))).filter
-      fun d => !d.isEmpty
-  let deque : List Str := diffs.flatMap fun d => d.map (·.1)
-  let kept :=
-    if onlyDiff then both.filter fun r => r.ind != .both || deque.contains r.path else both
-  if kept.isEmpty then .ok none else
-  match rebuild sep (kept.map (·.path)) with
-  | .error e => .error e
-  | .ok t =>
-    if deque.isEmpty then .ok (some t) else
-    let names : List (Str × Upd) :=
-      (sortedDesc deque).map fun k => (k, Upd.name ((split sep k).getLastD [] ++ sufChanged))
-    match (diffs.flatten ++ names).foldlM (fun t (pu : Str × Upd) => addPath sep pu.2 t pu.1) t with
-    | .error e => .error e
-    | .ok t => .ok (some t)
-
 end Helper
